@@ -4,6 +4,7 @@ import (
 	"encoding/json"
 	"math/rand"
 	"sort"
+	"strings"
 	"time"
 
 	"verif/harness/internal/gcs"
@@ -124,6 +125,36 @@ func checkC11(c *Ctx) {
 		if fileSafe {
 			fileProgs = append(fileProgs, p)
 		}
+		memProgs = append(memProgs, p)
+	}
+	// deep nesting (a page boundary inside a collapsed prefix whose names are nested two and three levels deep, with
+	// more names under the same top-level prefix) and names longer than 127 bytes (they end up in page tokens)
+	long := strings.Repeat("n", 131)
+	for _, set := range [][]string{
+		{"a/b/c", "a/b/d", "a/e", "a/b/c2/d", "b", "x/y/z/1", "x/y/z/2", "x/y/w", "x/v"},
+		{"a/b/c/d/e", "a/b/c/d/f", "a/b/g", "a/h", "a0", "c/d"},
+		{long + "1", long + "2", long + "/x", long + "/y/z", "a", "zz"},
+	} {
+		var names []j.B
+		for _, n := range set {
+			names = append(names, j.S(n))
+		}
+		sort.Slice(names, func(a, b int) bool { return string(names[a]) < string(names[b]) })
+		var cases []listCase
+		for _, pf := range []string{"", "a/", "a/b/", "x/", "x/y/", long, long + "/"} {
+			if pf != "" && !strings.HasPrefix(set[0], pf[:1]) && !strings.HasPrefix(set[len(set)-3], pf[:1]) {
+				continue
+			}
+			for _, dl := range []string{"/", ""} {
+				for _, mr := range []int{1, 2, 3} {
+					cases = append(cases, listCase{Prefix: j.S(pf), Delim: j.S(dl), MaxResults: mr})
+				}
+			}
+		}
+		p := build(names, cases)
+		c.AddEval(int64(len(cases)))
+		c.Nontrivial(describeGcs(p))
+		fileProgs = append(fileProgs, p)
 		memProgs = append(memProgs, p)
 	}
 	c.exhaustive = !c.Quick()
